@@ -112,14 +112,19 @@ def body(seed, reps, res):
         nA = arm.num_dof
         th = np.array([rnd.uniform(-1.2, 1.2) for _ in range(nA)])
         call('arm.FK', arm.FK, th.copy())
+        call('arm.FK.protect', arm.FK, th.copy(), True)
         for i in range(nA):
             call('arm.FKJoint[%d/%d]' % (i, nA), arm.FKJoint, th.copy(), i)
+            call('arm.FKJoint.protect[%d/%d]' % (i, nA), arm.FKJoint, th.copy(), i, True)       # every optional-argument form of the index-taking calls
             if has_links:
                 call('arm.FKLink[%d/%d]' % (i, nA), arm.FKLink, th.copy(), i)
+                call('arm.FKLink.protect[%d/%d]' % (i, nA), arm.FKLink, th.copy(), i, True)
                 call('arm.jacobianLink[%d/%d]' % (i, nA), arm.jacobianLink, i, th.copy())
         call('arm.jacobian', arm.jacobian, th.copy()); call('arm.jacobianBody', arm.jacobianBody, th.copy()); call('arm.jacobianEETrans', arm.jacobianEETrans, th.copy())
         call('arm.getJointTransforms', arm.getJointTransforms)
         call('arm.IK', lambda: arm.IK(arm.FK(th.copy()), theta_init=th + 0.05)[0])
+        call('arm.IK.free', lambda: arm.IK(arm.FK(th.copy()), theta_init=th + 0.05, protect=True)[0])
+        call('arm.IK.free.at-solution', lambda: arm.IK(arm.FK(th.copy()), theta_init=th.copy(), protect=True)[0])
         call('arm.staticForces', arm.staticForces, Wrench(np.array([rnd.uniform(-5, 5) for _ in range(6)])), th.copy())
         # public entry points: Stewart platform, every leg index
         call('sp.IK', lambda: sp.IK(tm(Tt))[0])
